@@ -1470,6 +1470,12 @@ class Parallel(Logger):
         batch_size = self._get_batch_size()
 
         with self._lock:
+            # An error may have been registered by a completion callback while
+            # this thread was computing the batch size or waiting for the lock:
+            # do not consume the input any further in that case.
+            if self._aborting:
+                return False
+
             # to ensure an even distribution of the workload between workers,
             # we look ahead in the original iterators more than batch_size
             # tasks - However, we keep consuming only one batch at each
